@@ -134,6 +134,16 @@ func (e *CEnv) sortOfC(t types.Type) string {
 	return e.v.sortOf(t)
 }
 
+// resolveTypeSafe: resolveType, nil instead of an unsupported-panic for unknown types.
+func (e *CEnv) resolveTypeSafe(ct *CType) (t types.Type) {
+	defer func() {
+		if r := recover(); r != nil {
+			t = nil
+		}
+	}()
+	return e.resolveType(ct)
+}
+
 func (e *CEnv) resolveType(ct *CType) types.Type {
 	switch ct.Kind {
 	case "ptr":
@@ -410,6 +420,19 @@ func (e *CEnv) tr(x *CExpr) CVal {
 		}
 		return CVal{Exists(bvars, full), types.Typ[types.Bool]}
 	case "un":
+		if x.Op == "&" {
+			// address of a boxed local variable
+			if x.X.Kind == "ident" && e.scope != nil {
+				if _, o := e.scope.LookupParent(x.X.Name, token.NoPos); o != nil {
+					if ob, ok := o.(*types.Var); ok && v.boxed[ob] {
+						if ref, ok := e.st.vars[ob]; ok {
+							return CVal{ref, types.NewPointer(ob.Type())}
+						}
+					}
+				}
+			}
+			unsupported("contract: & of %s (only the address of a local whose address the code takes)", x.X)
+		}
 		a := e.tr(x.X)
 		switch x.Op {
 		case "!":
@@ -948,7 +971,7 @@ func (e *CEnv) bcat(a, b *Term) *Term {
 	body := Eq(Select(c, i), Ite(And(Le(IntLit(0), i), Lt(i, la)), Select(e.bArr(a), i),
 		Ite(And(Le(la, i), Lt(i, Add(la, lb))), Select(e.bArr(b), Sub(i, la)), zeroOfSort(es))))
 	ax := Forall([]*Term{i}, body, mk("select", es, c, i))
-	wi := &winInfo{c: c, axiom: ax, kind: "len|" + e.st.normInt(Add(la, lb)).String()}
+	wi := &winInfo{c: c, axiom: ax, kind: "len|" + e.st.normKey(Add(la, lb)).String()}
 	v.windows[key] = wi
 	e.st.pc = append(e.st.pc, ax)
 	v.extLemmas(e.st, wi)
@@ -1070,6 +1093,11 @@ func (e *CEnv) trCall(x *CExpr) CVal {
 	case "typeis": // dynamic type test: typeis(x, T)
 		a := e.tr(x.Args[0])
 		ty := e.resolveType(cexprToType(x.Args[1]))
+		if _, isIface := ty.Underlying().(*types.Interface); isIface {
+			// interface target: the dynamic type implements it (as in a type switch)
+			v.d.declareFun("implements", []string{SInt, SInt}, SBool)
+			return CVal{And(Neq(IType(a.T), IntLit(0)), mk("implements", SBool, IType(a.T), IntLit(int64(v.d.typeID("iface:"+types.TypeString(ty, nil)))))), boolT}
+		}
 		return CVal{Eq(IType(a.T), IntLit(int64(v.d.typeID(types.TypeString(ty, nil))))), boolT}
 	case "as": // as(x, T): payload of interface value x as T
 		a := e.tr(x.Args[0])
@@ -1338,7 +1366,16 @@ func (e *CEnv) applySpec(sf *SpecFunc, argx []*CExpr) CVal {
 	if rty == bstrType && v.inQuant == 0 {
 		if containsOp(app, "ite") {
 			// patterns must not contain ite: name the application
-			c := v.fresh("bs", app.Sort)
+			// (one name per distinct term: equal applications stay syntactically equal)
+			key := app.String()
+			c, seen := v.bsNames[key]
+			if !seen {
+				c = v.fresh("bs", app.Sort)
+				if v.bsNames == nil {
+					v.bsNames = map[string]*Term{}
+				}
+				v.bsNames[key] = c
+			}
 			e.st.assume(Eq(c, app))
 			app = c
 		}
